@@ -79,6 +79,7 @@ TStep ==
     /\ OutDone
     /\ TimeOK(r.t)
     /\ \/ WaitStep(r.t)
+       \/ AsyncDoneStep(r.t)
        \/ \E src \in {"T", "U", "H", "N", "X"} : RecvStep(src, r.t)
     /\ Len(S'.out) > 0
     /\ Match(r, S'.out[1])
